@@ -248,6 +248,7 @@ class Grammar:
         self.names = {}
         self.depth_guards = []   # (fn name, name of the limit constant)
         self.consts = {}
+        self.wrapper_uses = []   # (xmlchar wrapper name, except string) pairs met in the sources
 
     def nt(self, fn):
         return "G.nt N.%s" % lean_id(fn)
@@ -257,6 +258,8 @@ class Grammar:
         if kind == "id":
             name = e[1]
             if name in BUILTIN:
+                if name == "xmlchar::enc_name0" and ("enc_name0", "") not in self.wrapper_uses:
+                    self.wrapper_uses.append(("enc_name0", ""))
                 return BUILTIN[name]
             short = name.split("::")[-1]
             if short in self.names:
@@ -319,6 +322,9 @@ class Grammar:
                         return "G.verify (%s) %s" % (self.tr(args[0], fn), mk(m))
                 raise TranslateError("%s: verify closure not in the table of known shapes: %s" % (fn, args[1][1]))
             if name in WRAPPERS:
+                use = (name.split("::")[-1], args[0][1])
+                if use not in self.wrapper_uses:
+                    self.wrapper_uses.append(use)
                 k, p = WRAPPERS[name]
                 return "G.%s (P.except %s %s)" % (k, p, lean_str(args[0][1]))
             if name == "helper::take_until":
